@@ -695,6 +695,17 @@ func runC17(c *rt.Ctx) {
 			for _, s := range []string{"", " ", "v", "1.0.0", "v1.0.0-rc.1+b", "2021-02-28", "20210228", "MMXXI", "mmxxi", "10 kB", `"10kB"`, `{"value":1,"unit":"B"}`, "urn:uuid:f81d4fae-7dec-11d0-a765-00a0c91e6bf6", "F81D4FAE-7DEC-11D0-A765-00A0C91E6BF6", "\xff\xfe", "ééa", "rc.1", "rc.01", "\x00"} {
 				c17Instantiations(w, s)
 			}
+			// separators in every place of a number and its unit (in front, between the digits, before and inside the unit,
+			// behind): two scanners written for strings and for bytes tend to differ in where they let a separator pass
+			for _, base := range []string{"1", "0", "007", "10kB", "1024 KiB", "12 345 678", "5e3", "-1", "1.0MB"} {
+				for pos := 0; pos <= len(base); pos++ {
+					for _, deco := range []string{" ", "\u00a0", "_", "\t", "\n", "\u202f", "\u2007", "\ufeff", "\xa0", "\xc2", "+", "'", ","} {
+						c17Instantiations(w, base[:pos]+deco+base[pos:])
+						c17Instantiations(w, base[:pos]+deco+deco+base[pos:])
+						w.ClassN("instantiation-separator-in-every-place", 2)
+					}
+				}
+			}
 			// JSON documents that are almost one value: something behind it, something missing at the end
 			// several unknown keys at once (a message assembled from a map names them in another order every time)
 			for rep := 0; rep < 12; rep++ {
@@ -715,6 +726,7 @@ func runC17(c *rt.Ctx) {
 		}
 	})
 	c.Require("instantiation-json-almost-one-value", 10)
+	c.Require("instantiation-separator-in-every-place", 1000)
 	{
 		// inputs longer than any default limit, with the limits raised or removed: refused ones are printed (Error()) before the buffers are compared
 		oD, oR, oS, oZ, oU := date.MaxInputLength, roman.MaxInputLength, sem.MaxInputLength, size.MaxInputLength, uu.MaxInputLength
